@@ -1193,6 +1193,7 @@ func runWitnesses(c *Ctx) {
 // ---------------------------------------------------------------------------------------------
 
 func runC02(c *Ctx) {
+	defer definedTypeProbe(c, "C02") // defined scalar types: real-code oracle only (defined_zoo.go)
 	r := c.R
 	r.Rule = "sources in which a rewrite can fire (constant arithmetic at depth, literal arrays, membership in literal arrays / literal ranges with left operands of every admitted static type, constant ranges, ConstExpr calls) inside typed contexts x {struct, map} environments x ConstExpr sets: (i) Lean model of optimizer.Optimize = real optimizer on the typed tree (kinds, locations, error location); (ii) on the real code: Optimize(true) vs Optimize(false), ConstExpr on vs off, same environment values, ObsEq; non-trivial = the real optimizer changed the tree or rejected it"
 	flags := probeOptFlags(c)
